@@ -51,6 +51,7 @@ fn main() {
         let case = &body["replay"];
         match id.as_str() {
             "C12" => props::c12::replay(&run, case),
+            "C17" => props::c17::replay(&run, case),
             _ => {
                 eprintln!("no single-case replay for {}: re-run the check (enumeration is deterministic)", id);
                 std::process::exit(2);
@@ -64,6 +65,8 @@ fn main() {
     }
     match id.as_str() {
         "C12" => props::c12::run(&run),
+        "C14" => props::c14::run(&run),
+        "C17" => props::c17::run(&run),
         _ => {
             eprintln!("unknown or unimplemented property {}", id);
             std::process::exit(2);
